@@ -128,6 +128,19 @@ end ArgMapper.Driver
 
 namespace ArgMapper.Driver
 
+/-- `probe` blocks (after call scenarios): a sibling function sharing the target's default-option array must be
+left alone by `Call` / `Redefine` on the target (its exactly matching default value is what it receives: C03, C16;
+an unsatisfiable call must not pick up somebody else's value: C02; Redefine disturbs nothing: C09), and an
+option-less `Call()` behaves the same before and after an option-less `Redefine()` (C09) -/
+def runProbe (b : Block) : Res :=
+  let sib := ((field b "sibling").getD []).headD "skip"
+  let bare := ((field b "bare").getD []).headD "skip"
+  let ps := if sib = "disturbed" ∨ sib = "panic" then some s!"call_or_redefine_on_the_target_{sib}_a_function_sharing_its_default_option_array" else none
+  let pb := if bare.startsWith "changed" ∨ bare = "panic" then some s!"option-less_Call_after_option-less_Redefine_{noSpace bare}" else none
+  { conform := none, propNA := true,
+    props := [("C02", verdictStr ps), ("C03", verdictStr ps), ("C05", verdictStr ps), ("C16", verdictStr ps), ("C09", verdictStr (ps.or pb)), ("C06", verdictStr (if bare = "panic" ∨ sib = "panic" then some "probe_panicked" else none))],
+    stats := ["execs=1", "outcome=ok", "size=1"] }
+
 /-- `alias` blocks: after calling a redefined function, is the caller's option slice (spare capacity
 included) still what the caller put there? -/
 def runAlias (b : Block) : Res :=
